@@ -723,6 +723,29 @@ def r11b(P, R):
             for c in guards:
                 g = c[1]["cond"] if c[0].startswith("if") else (c[1].get("init") if c[0] == "let-else" else c[1]["scrut"])
                 read |= _deep_field_reads(P, f, g, ext)
+            # "there is no extension at all" implies there is nothing to merge: returning the original then is what the merge
+            # computes anyway
+            def no_extensions(cond, want=True):
+                c_ = _strip(cond)
+                while c_ is not None and c_.get("k") == "Unary" and c_.get("op") in ("Not", "!"):
+                    c_, want = _strip(c_["e"]), not want
+                if c_ is None:
+                    return False
+                def is_exts(e_):
+                    return any(elem_type(e_.get(k_) or "") == ext for k_ in ("t", "ta"))
+                if c_.get("k") == "MethodCall" and c_.get("method") == "is_empty" and is_exts(c_["recv"]):
+                    return want
+                if c_.get("k") == "Binary" and c_.get("op") in ("==", "Eq") and want:
+                    sides = [_strip(c_["l"]), _strip(c_["r"])]
+                    lens = [x for x in sides if x.get("k") == "MethodCall" and x.get("method") == "len" and is_exts(x["recv"])]
+                    zeros = [x for x in sides if x.get("k") == "Lit" and x.get("v") in (0, "0")]
+                    return bool(lens and zeros)
+                return False
+            inner = guards[0] if guards else None
+            if inner is not None and inner[0] in ("if-then", "if-else") and no_extensions(inner[1]["cond"], inner[0] == "if-then") \
+                    and not any(y.get("k") == "Struct" and "rest" not in y for y in subnodes(n)):
+                R.holds("R11-b", tag + ":shortcut", "the original is returned as it is only when the list of extensions is empty", loc=f.loc())
+                continue
             missing = [x for x in e_content if x not in read]
             if missing:
                 R.violated("R11-b", tag + ":shortcut", "%s returns early without merging under a condition that does not look at the "
